@@ -138,6 +138,14 @@ def c02(tier):
             units += shards("VerifC02Step", 3, n=2, mut=mut, multi=multi, nconcrete=2 if (multi, mut) == (0, 0) else 0)
     for sc in CURATED3:
         units.append(U(MACH, "VerifC02Step", weight=2, n=3, schema=sc, multi=0))
+    # every 3-state schema with at most 2 (thorough: 3) relation entries (sparse family), sharded by the first bits
+    me, pb = (2, 3) if tier == "quick" else (3, 5)
+    for mut in (0, 1, 2):
+        for pv in range(1 << pb):
+            units.append(U(MACH, "VerifC02Step", weight=6, n=3, schema=-1, pbits=pb, pval=pv, maxedges=me, multi=0, mut=mut))
+    # 4 states, Add relations only (chains and diamonds), at most 4 entries
+    for pv in range(16):
+        units.append(U(MACH, "VerifC02Step", weight=8, n=4, schema=-1, pbits=4, pval=pv, maxedges=4, only=1, multi=0, mut=0))
     if tier == "thorough":
         for pv in range(0, 1024, 8):
             units.append(U(MACH, "VerifC02Step", weight=20, n=3, schema=-1, pbits=10, pval=pv, multi=0, mut=0))
@@ -146,10 +154,14 @@ def c02(tier):
 
 
 def c03(tier):
-    units = mach_units("VerifC03Step", tier, extra={"multi": 1})
+    units = mach_units("VerifC03Step", tier, extra={"multi": 1, "auto": 0})
+    # Auto-flagged states called manually (an auto mutation may follow in the same drain)
+    for mut in (0, 2):
+        units += shards("VerifC03Step", 5, weight=6, n=2, multi=0, auto=1, mut=mut)
     units += [u for mut in (0,) for u in shards("VerifC03Check", 4, n=2, multi=0)]
     for early in (0, 1, 2):
         units += shards("VerifC03Early", 2, n=2, multi=0, early=early)
+    units.append(U(MACH, "VerifC03Early", n=2, multi=0, early=3, schema=0))
     return {"units": units, "bounds": MACH_BOUNDS, "outside": MACH_OUT, "assumptions": MACH_ASSUME}
 
 
@@ -158,17 +170,23 @@ def c01(tier):
     for handlers in (0, 1):
         units += mach_units("VerifC01Clock", tier, extra={"multi": 1, "handlers": handlers, "check": 0}, n3=(handlers == 0))
     units += shards("VerifC01Clock", 4, n=2, multi=1, handlers=1, check=1)
+    for pv in range(16):
+        units.append(U(MACH, "VerifC01Clock", weight=8, n=4, schema=-1, pbits=4, pval=pv, maxedges=4, only=1, multi=0, handlers=0, check=0, mut=0))
     return {"units": units, "bounds": dict(MACH_BOUNDS, ticks="symbolic 62-bit base per state, parity = activity"), "assumptions": MACH_ASSUME + [
         "concurrent readers: not explored; every write of activeStates/clock in the encoded code happens inside the activeStatesMx critical section (see DESIGN)"],
         "outside": MACH_OUT + ["interleavings of concurrent readers (covered only by the lock-discipline argument in DESIGN.md)"]}
 
 
 def c05(tier):
-    units = mach_units("VerifC05Order", tier, extra={"multi": 0, "after": 0})
+    units = mach_units("VerifC05Order", tier, extra={"multi": 0, "after": 0, "auto": 0})
     units += shards("VerifC05Order", 4, n=2, multi=1, after=1, mut=0)
-    for sc in range(0, 1 << 6, 5):
-        # 3 states with only After relations symbolic would need 24 bits; curated After chains instead
-        pass
+    for mut in (0, 2):
+        units += shards("VerifC05Order", 5, weight=6, n=2, multi=0, after=0, auto=1, mut=mut)
+    # 3 states, only Require and After relations (ordering), at most 2 (thorough 3) entries
+    me = 2 if tier == "quick" else 3
+    for mut in (0, 1, 2):
+        for pv in range(8):
+            units.append(U(MACH, "VerifC05Order", weight=6, n=3, schema=-1, pbits=3, pval=pv, maxedges=me, only=2, multi=0, after=1, auto=0, mut=mut))
     return {"units": units, "bounds": MACH_BOUNDS, "outside": MACH_OUT + ["After relations over 3 states (known finding c05-after-not-transitive is checked in C05After)"],
             "assumptions": MACH_ASSUME}
 
@@ -185,3 +203,94 @@ def c14(tier):
 
 
 PROPS.update({"C01": c01, "C02": c02, "C03": c03, "C05": c05, "C07": c07, "C14": c14})
+
+
+def c20(tier):
+    units = [U(MACH, f, weight=w, nconcrete=3) for f, w in (("VerifC20Sets", 20), ("VerifC20Index", 10), ("VerifC20Time", 2), ("VerifC20Queue", 2),
+                                                            ("VerifC20Parse", 2), ("VerifC20Event", 1), ("VerifC20Getters", 3))]
+    for w in range(9):
+        units.append(U(MACH, "VerifC20When", when=w))
+    return {"units": units,
+            "bounds": {"lists": "sub-lists of 4 names and lists of length <=3 with duplicates / an unknown name", "time": "Time of length 0..3, 64-bit ticks, "
+                       "indexes -1..len-1", "queue": "0..2 queued mutations, every Position", "contexts": "nil and live contexts for every When* method"},
+            "outside": ["pkg/helpers wait/ask helpers and pkg/integrations JSON handlers (not encoded in this revision)", "enumeration of entry points by "
+                        "reflection: the list of kernels is static", "DetachHandlers (unbounded self-recursion: cannot be replayed without killing the test "
+                        "process; noted in DESIGN.md)", "Time.Equal(false, shorter) (undocumented precondition; candidate only)"],
+            "assumptions": ["documented preconditions only: states exist in the schema, indexes in -1..len-1", "panics are violations (//verif:panics violation)"]}
+
+
+PROPS["C20"] = c20
+
+
+def c04(tier):
+    units = []
+    for mut in (0, 1, 2):
+        units += shards("VerifC04Nested", 3, weight=8, n=2, mut=mut)
+    return {"units": units, "bounds": dict(MACH_BOUNDS, nesting="one mutation (Add/Remove/Set over any called set) issued from inside any one handler call"),
+            "outside": MACH_OUT + ["N>=2 goroutines racing on the queue lock (CAS): not explored, see DESIGN.md (C04 race clause)", "Eval", "handler timeouts / dispose flushing"],
+            "assumptions": MACH_ASSUME}
+
+
+def c06(tier):
+    units = []
+    extras = (1,) if tier == "quick" else (0, 1, 2)
+    for kind in range(8):
+        for pos in (0, 1, 2):
+            for m1 in (0, 1, 2):
+                units.append(U(MACH, "VerifC06Wait", weight=5, n=2, schema=0, kind=kind, pos=pos, mut1=m1, auto=0))
+    for kind in (0, 1, 6):
+        for pos in (0, 2):
+            units += shards("VerifC06Wait", 2, weight=8, n=2, kind=kind, pos=pos, auto=1, maxedges=2, mut1=0)
+    return {"units": units, "bounds": {"transitions": "2 mutations (plus their auto mutations)", "subscription": "before the first mutation, from a final handler of it "
+                                       "(between setActiveStates and processSubscriptions), or after it", "states": "2 user states, Multi, schema without relations for every "
+                                       "When* kind; schemas with <=2 relation/Auto bits for When/WhenNot/NewStateCtx", "ctx": "none, live, cancelled between the mutations"},
+            "outside": ["WhenArgs, WhenQueueEnds (only in the C20 totality kernels)", "SetSchema growth", "a subscribing goroutine racing with the transition (positions are reached "
+                        "from the same goroutine / a final handler)", "dispose (C13)"], "assumptions": MACH_ASSUME}
+
+
+def c08(tier):
+    units = shards("VerifC08Fault", 3, weight=4, n=2)
+    return {"units": units, "bounds": dict(MACH_BOUNDS, fault="one panic at any of the first 6 handler calls of one mutation (negotiation or final handler)"),
+            "outside": ["that a real panic cannot escape the handler goroutine (the fault is delivered on handlerPanic as handlerLoop's recover does)", "handler timeouts, deadlines, backoff timing",
+                        "double faults, faults inside Exception handlers", "PanicToErr for forked code"], "assumptions": MACH_ASSUME}
+
+
+def c11(tier):
+    units = []
+    # mutually removing / chained Auto states over 3 states (bit codes: 7 bits per state = Require[2] Add[2] Remove[2] Auto)
+    def c(a, b, cc):
+        names = "ABC"
+        code, pos = 0, 0
+        for i, (req, add, rem, auto) in enumerate((a, b, cc)):
+            others = [x for x in names if x != names[i]]
+            for rel in (req, add, rem):
+                for o in others:
+                    if o in rel:
+                        code |= 1 << pos
+                    pos += 1
+            if auto:
+                code |= 1 << pos
+            pos += 1
+        return code
+    cur = [c(("", "", "B", 1), ("", "", "A", 1), ("", "", "", 0)), c(("", "", "", 1), ("A", "", "", 1), ("", "", "", 0)),
+           c(("", "C", "", 1), ("", "", "C", 1), ("", "", "", 0)), c(("", "", "BC", 1), ("", "", "AC", 1), ("", "", "AB", 1))]
+    for sc in cur:
+        for mut in (0, 1, 2):
+            units.append(U(MACH, "VerifC11Determinism", weight=6, n=3, schema=sc, mut=mut))
+    for mut in (0, 1, 2):
+        units += shards("VerifC11Determinism", 4, weight=6, n=2, mut=mut, maxedges=4)
+    return {"units": units, "bounds": {"schemas": "2 user states with at most 4 relation/Auto bits; 4 curated 3-state schemas with Auto states", "runs": "two executions with "
+                                       "independently chosen iteration orders at the map ranges of NewAutoMutation, TopologicalSort and ParseStates", "mutation": "one mutation (+auto)"},
+            "outside": ["map ranges outside the three named functions", "random identifiers (replaced by a constant)", "histories longer than one mutation"],
+            "assumptions": MACH_ASSUME + ["natively the counterexample is confirmed by 48 re-executions of the same history"]}
+
+
+def c13(tier):
+    units = [U(MACH, "VerifC13Dispose", weight=10, nconcrete=2)]
+    return {"units": units, "bounds": {"waiters": "any subset of When, WhenNot, WhenTime, WhenArgs, WhenQueue, WhenQuery, NewStateCtx (with or without a shared ctx)",
+                                       "dispose_handlers": "0..2", "dispose": "DisposeForce once or twice"},
+            "outside": ["Dispose() proper (forks doDispose, sleeps, waits for the queue)", "handler goroutine exit, goroutine leaks", "Dispose concurrent with mutations or from a handler",
+                        "pkg/states DisposedHandlers, amhelp.Dispose"], "assumptions": MACH_ASSUME}
+
+
+PROPS.update({"C04": c04, "C06": c06, "C08": c08, "C11": c11, "C13": c13})
